@@ -205,7 +205,7 @@ theorem C11_run_sections (ho : GuessOpts o pname) (hreal : o.dryRun = false) (hs
     (hti : ∀ l ∈ trailer, inertLine l.content = true) (htp : ∀ l ∈ trailer, lfPlain l = true) (hmt : NoMarkerHead trailer) :
     (runPatch o s0).1 = 0 ∧
     (∀ j ∈ js, (runPatch o s0).2.fs.lookup j.name =
-      some (.file (renderLines o.newlineOutput (splice (splitLines j.bytes) 0 j.sec.hs)) j.m)) ∧
+      some (.file (Render.renderText o.newlineOutput (splice (splitLines j.bytes) 0 j.sec.hs)) j.m)) ∧
     (∀ q, (∀ j ∈ js, q ≠ j.name) → (runPatch o s0).2.fs.lookup q = s0.fs.lookup q) := by
   obtain ⟨h1, h2⟩ := runPatch_jobs ho hreal hs0 hpn hpd js trailer pm hpatch hne hok htext htg hpw hm
     ⟨hti, fun l hl => lfPlain_term (htp l hl)⟩ htp hmt
@@ -249,8 +249,8 @@ theorem C11_run_two (ho : GuessOpts o pname) (hreal : o.dryRun = false) (hs0 : C
     (hpatch : s0.fs.lookup pname = some (.file
       (patchText f0 old1 new1 oldt1 newt1 hs1 ++ patchText f1 old2 new2 oldt2 newt2 hs2 ++ linesText f2) pm)) :
     (runPatch o s0).1 = 0 ∧
-    (runPatch o s0).2.fs.lookup name1 = some (.file (renderLines o.newlineOutput (splice (splitLines bytes1) 0 hs1)) m1) ∧
-    (runPatch o s0).2.fs.lookup name2 = some (.file (renderLines o.newlineOutput (splice (splitLines bytes2) 0 hs2)) m2) ∧
+    (runPatch o s0).2.fs.lookup name1 = some (.file (Render.renderText o.newlineOutput (splice (splitLines bytes1) 0 hs1)) m1) ∧
+    (runPatch o s0).2.fs.lookup name2 = some (.file (Render.renderText o.newlineOutput (splice (splitLines bytes2) 0 hs2)) m2) ∧
     ∀ q, q ≠ name1 → q ≠ name2 → (runPatch o s0).2.fs.lookup q = s0.fs.lookup q := by
   obtain ⟨k1, t1⟩ := job_ok (o := o) hd1 hn1 hold1 hstrip1 hw1 hv1
   obtain ⟨k2, t2⟩ := job_ok (o := o) hd2 hn2 hold2 hstrip2 hw2 hv2
@@ -378,7 +378,7 @@ theorem C11_run_two_sequential (ho : GuessOpts o pname) (hreal : o.dryRun = fals
       rw [Fs.lookup_set_ne _ _ _ _ hp1]; exact ht1)
     (by simp) (by simp) hnilF (by simp) hnilM
   have a2' : first.2.fs = (s0.fs.set pname (.file (patchText [] old1 new1 oldt1 newt1 hs1) pm)).set name1
-      (.file (renderLines o.newlineOutput (splice (splitLines bytes1) 0 hs1)) m1) := a2
+      (.file (Render.renderText o.newlineOutput (splice (splitLines bytes1) 0 hs1)) m1) := a2
   -- the run on the second section alone, in the tree the first run left
   obtain ⟨c1, c2⟩ := runPatch_jobs ho hreal
     (cleanStart_withPatch (pname := pname) (pm := pm) hs0 first.2.fs (by rw [a2']; exact hs0.root)
@@ -397,10 +397,10 @@ theorem C11_run_two_sequential (ho : GuessOpts o pname) (hreal : o.dryRun = fals
   intro q hq
   have b2' : both.2.fs = ((s0.fs.set pname (.file
       (patchText f0 old1 new1 oldt1 newt1 hs1 ++ patchText f1 old2 new2 oldt2 newt2 hs2 ++ linesText f2) pm)).set name1
-      (.file (renderLines o.newlineOutput (splice (splitLines bytes1) 0 hs1)) m1)).set name2
-      (.file (renderLines o.newlineOutput (splice (splitLines bytes2) 0 hs2)) m2) := b2
+      (.file (Render.renderText o.newlineOutput (splice (splitLines bytes1) 0 hs1)) m1)).set name2
+      (.file (Render.renderText o.newlineOutput (splice (splitLines bytes2) 0 hs2)) m2) := b2
   have c2' : second.2.fs = (first.2.fs.set pname (.file (patchText [] old2 new2 oldt2 newt2 hs2) pm)).set name2
-      (.file (renderLines o.newlineOutput (splice (splitLines bytes2) 0 hs2)) m2) := c2
+      (.file (Render.renderText o.newlineOutput (splice (splitLines bytes2) 0 hs2)) m2) := c2
   rw [b2', c2', a2']
   by_cases e2 : q = name2
   · subst e2
@@ -507,8 +507,8 @@ theorem run_applies :
     (flat_ne_devNull (by decide)) (stripPath_flat (by decide) (by decide))
     (bytes1 := bytesF) (m1 := 0o644) rfl (by decide) (bytes2 := bytesG) (m2 := 0o600) rfl (by decide)
     (validB_sound _ _ _ _ (by decide)) (validB_sound _ _ _ _ (by decide)) rfl
-  have r1 : renderLines o.newlineOutput (splice (splitLines bytesF) 0 [hkF]) = [97, 10, 66, 10, 99, 10] := by decide
-  have r2 : renderLines o.newlineOutput (splice (splitLines bytesG) 0 [hkG]) = [120, 10, 89, 10] := by decide
+  have r1 : Render.renderText o.newlineOutput (splice (splitLines bytesF) 0 [hkF]) = [97, 10, 66, 10, 99, 10] := by decide
+  have r2 : Render.renderText o.newlineOutput (splice (splitLines bytesG) 0 [hkG]) = [120, 10, 89, 10] := by decide
   rw [r1, r2] at h
   exact h
 
